@@ -515,7 +515,10 @@ l1:
 		// try found status from exploring
 		status := c.getExploreResult(h)
 		if status != nil {
-			ret[h] = status
+			// must copy, the explore result is shared by all replicas and all coordinating periods,
+			// the status may be changed when it is merged with the status of other replicas
+			st := *status
+			ret[h] = &st
 		} else {
 			ret[h] = target.NewScrapeStatus(0, 0)
 		}
